@@ -205,9 +205,11 @@ func normalizeWorld(w *World, verif string) (*World, *normLog) {
 			}
 			sort.Strings(lg.NewFuncs)
 		}
-		if len(nf) == 0 {
-			break
+		if len(nf) == 0 && round == 1 {
+			break // every function is in the reviewed table: the pass is the identity
 		}
+		// later rounds also run without new functions: substitutions of earlier rounds can leave function literals that
+		// are called where they are written, which only a re-type-checked tree lets the pass reduce
 		n := &normalizer{w: cur, newFns: nf, lg: lg, lineMaps: lineMaps}
 		files := n.run()
 		if len(files) == 0 {
